@@ -6,6 +6,7 @@ import (
 	"os"
 	"path/filepath"
 	"regexp"
+	"sort"
 	"strings"
 	"time"
 
@@ -750,6 +751,7 @@ func runC01(r *core.Run) {
 		nsim = 4000
 	}
 	n := txnScriptReplay(r, []string{"TxnScriptGen.cfg", "TxnScriptGen_commitfail.cfg", "TxnScriptGen_create.cfg", "TxnScriptGen_temp.cfg", "TxnScriptGen_two.cfg", "TxnScriptGen_nested.cfg", "TxnScriptGen_dirs.cfg"}, nsim, "c01")
+	c01Interrupts(r)
 	r.Coverage["traces_validated_against_impl"] = n
 	r.Coverage["exhaustive"] = false
 }
@@ -984,4 +986,125 @@ func showFileContent(content string) []string {
 		}
 	}
 	return l
+}
+
+// c01Interrupts: a procedure ended by an interrupt - and by a second one while it winds down - leaves every table as it
+// was at the most recent COMMIT, or, if the interrupt came too late to stop the COMMIT, as that COMMIT leaves them: all
+// of its tables, never some.  Procedure: two updated tables and a created one, COMMIT, a further change, end.  One run per
+// hook point x signal (a second signal at the first and at the middle point the signalled run visits afterwards).
+func c01Interrupts(r *core.Run) {
+	sc := binScenario{Name: "c01int", Tables: map[string]string{"f1.csv": rowsCSV(3, 0), "f2.csv": rowsCSV(40, 0)},
+		SQL: "UPDATE `f1.csv` SET n = n + 1;\nUPDATE `f2.csv` SET n = n + 1;\nCREATE TABLE `f3.csv` (n);\nINSERT INTO `f3.csv` VALUES (5);\nCOMMIT;\nUPDATE `f1.csv` SET n = n + 1;\nCREATE TABLE `f4.csv` (n);\n"}
+	// the committed states: before the COMMIT, after the COMMIT, after the end of the procedure (automatic commit)
+	states := []map[string]string{copyMap(sc.Tables)}
+	for _, sql := range []string{sc.SQL[:strings.Index(sc.SQL, "COMMIT;\n")+8], sc.SQL} {
+		pre := sc
+		pre.SQL = sql
+		snap, res, _ := runSignalScenario(r, pre, nil)
+		if res.Exit != 0 {
+			core.Fail("c01 interrupts: reference run failed: %s", res.Stderr)
+		}
+		states = append(states, snap)
+	}
+	_, _, points := runSignalScenario(r, sc, nil)
+	type job struct {
+		env []string
+		id  string
+	}
+	var jobs []job
+	enc := 0
+	for k, p := range points {
+		if p.Point == "signal.seen" {
+			continue
+		}
+		if p.Point == "encode.row" {
+			enc++
+			if enc > 2 && enc%17 != 0 {
+				continue
+			}
+		}
+		sig := []string{"INT", "TERM", "QUIT"}[k%3]
+		jobs = append(jobs, job{[]string{"VERIF_SIGNAL_AT=" + p.ID + ":" + sig}, p.ID + ":" + sig})
+	}
+	first := len(jobs)
+	after := make([][]string, first)
+	core.Parallel(first, 8, func(i int) {
+		if i%2 != 0 {
+			return
+		}
+		sub := sc
+		sub.Name = fmt.Sprintf("c01int.pre%d", i)
+		_, _, pts := runSignalScenario(r, sub, jobs[i].env)
+		seen := false
+		for _, p := range pts {
+			if p.Point == "signal.seen" {
+				seen = true
+			} else if seen && p.Point != "encode.row" {
+				after[i] = append(after[i], p.ID)
+			}
+		}
+	})
+	for i := 0; i < first; i++ {
+		if n := len(after[i]); n > 0 {
+			for _, k := range []int{0, n / 2, n - 1} {
+				jobs = append(jobs, job{append(append([]string{}, jobs[i].env...), "VERIF_SIGNAL2_AT="+after[i][k]+":"+[]string{"TERM", "INT"}[k%2]), jobs[i].id + "+" + after[i][k]})
+			}
+		}
+	}
+	what := make([]string, len(jobs))
+	core.Parallel(len(jobs), 8, func(i int) {
+		sub := sc
+		sub.Name = fmt.Sprintf("c01int.%d", i)
+		snap, res, _ := runSignalScenario(r, sub, jobs[i].env)
+		switch {
+		case res.Signaled:
+			what[i] = "the process was killed by the signal instead of ending the procedure"
+		case res.IsFatal():
+			what[i] = "internal failure: " + firstLine(res.Stderr)
+		default:
+			ok := false
+			for _, st := range states {
+				same := len(st) == len(snap)
+				for n, c := range st {
+					if snap[n] != c {
+						same = false
+					}
+				}
+				ok = ok || same
+			}
+			if !ok {
+				what[i] = fmt.Sprintf("the directory is in none of the committed states (exit %d): %v", res.Exit, describeSnap(snap))
+			}
+		}
+	})
+	rep := false
+	for i, w := range what {
+		r.Distinct("c01int:" + jobs[i].id)
+		if w != "" && !rep {
+			rep = true
+			kind := "interrupt"
+			if strings.Contains(jobs[i].id, "+") {
+				kind = "second-interrupt"
+			}
+			r.Violation("c01:"+kind+":not-all-or-nothing", fmt.Sprintf("procedure %q, signals at %s: %s", sc.SQL, jobs[i].id, w), map[string]interface{}{"sql": sc.SQL, "signals": jobs[i].id})
+		}
+	}
+	r.Coverage["interrupted_procedures"] = len(jobs)
+}
+
+func describeSnap(snap map[string]string) []string {
+	var l []string
+	for n, c := range snap {
+		l = append(l, fmt.Sprintf("%s:%dB:%q", n, len(c), firstLine(c+"\n"+lastLine(c))))
+	}
+	sort.Strings(l)
+	return l
+}
+
+func lastLine(s string) string {
+	s = strings.TrimRight(s, "\n")
+	if i := strings.LastIndex(s, "\n"); i >= 0 {
+		return s[i+1:]
+	}
+	return s
 }
